@@ -224,6 +224,13 @@ def oracle_C02(t):
 
 def oracle_C03(t):
     out = []
+    lin, frames = track(t)
+    for i in range(t.n):
+        root = must_be_served(t, lin, frames, i)
+        if root is not None and t.obs[i]["res"] != "sess":
+            o_ = t.obs[i]
+            out.append(F(i, "a session that keeps being accessed at intervals shorter than SessionExpiry (%d ns since the last accepted request, SessionExpiry %d) was expired: %s %s"
+                         % (o_["now"] - [l for r0, l in frames[i - 1]["last"].items() if lin.find(r0) == root][0]["time"], t.cfgs[i]["expiry"], o_["res"], o_.get("site", ""))))
     for i in range(t.n):
         st, o, cfg = t.steps[i], t.obs[i], t.cfgs[i]
         if t.plain(i):
@@ -483,7 +490,7 @@ def track(t):
 
     def g(k):
         root = lin.find(k)
-        return ghost.setdefault(root, {"data": {}, "user": None, "tainted": set(), "unknown": False})
+        return ghost.setdefault(root, {"data": {}, "user": None, "tainted": set(), "unknown": False, "last": None})
 
     def merge(a, b):
         ra, rb = lin.find(a), lin.find(b)
@@ -523,6 +530,15 @@ def track(t):
                     merge(sk, k)
             gh = g(sk)
             frame["pre_ghost"] = {"data": dict(gh["data"]), "user": gh["user"], "tainted": set(gh["tainted"]), "unknown": gh["unknown"], "existing": existing}
+            # the request was accepted: it is the comparison point from now on,
+            # provided the package still holds its bookkeeping (the object may
+            # have left a tiny cache in mid-request, or caching may be off)
+            fin = o.get("final") or o["start"]
+            held = post.L(kt(fin["key"]))
+            cfg_i = t.cfgs[i]
+            exact = held is not None and held["access"] >= norm({"created": 0, "access": o["now"]}, cfg_i)["access"] \
+                and held["ip"] == st["addr"] and held["ua"] == agent_hash(st.get("agent", 0))
+            gh["last"] = {"time": o["now"], "addr": st["addr"], "agent": st.get("agent", 0), "exact": exact and t.plain(i)}
             frame["lin_key"] = sk
             cur = sk
             for s_, r_ in zip(st.get("script") or [], o.get("script") or []):
@@ -583,10 +599,51 @@ def track(t):
                     if not (o["res"] == "sess" and lin.find(kt(o["start"]["key"])) == lin.find(k)):
                         dead.add(lin.find(k))
                         frame["ended"].append(lin.find(k))
+        if st["kind"] in ("drop", "restart") or o["res"] == "crashed" or not t.plain(i):
+            for gh in ghost.values():
+                if gh.get("last"):
+                    gh["last"]["exact"] = False     # bookkeeping may be older now
+        frame["last"] = {root: dict(gh["last"]) for root, gh in ghost.items() if gh.get("last")}
         frame["dead"] = {lin.find(x) for x in dead}
         frame["find"] = dict(lin.p)
         frames.append(frame)
     return lin, frames
+
+
+def must_be_served(t, lin, frames, i):
+    """Is step i a request by a cookie-following client whose session is valid
+    with margin according to the client's own history (the instant, peer and
+    agent of its last accepted request, known exactly)? Returns the lineage
+    root or None."""
+    st, cfg = t.steps[i], t.cfgs[i]
+    if st["kind"] != "req" or not t.plain(i) or i == 0:
+        return None
+    if st.get("forge_raw") is not None or st.get("forge_key") is not None:
+        return None
+    kind, k = presented(st, t.pre_jar[i])
+    if kind != "key":
+        return None
+    prev = frames[i - 1]
+    root = lin.find(k)
+    last = None
+    for r0, l0 in prev["last"].items():
+        if lin.find(r0) == root:
+            last = l0
+    if last is None or not last["exact"] or root in {lin.find(x) for x in prev["dead"]}:
+        return None
+    margin = SEC if cfg["json"] else 0
+    now = t.obs[i]["now"]
+    if now - last["time"] + margin >= cfg["expiry"]:
+        return None
+    if last["addr"] != st["addr"] or last["agent"] != st.get("agent", 0):
+        return None
+    # the ID the client holds must be the session's current one (not merely in grace)
+    r = t.pre(i).L(k)
+    if r is not None and r.get("ref"):
+        return None
+    # a user-wide call or another client's exclusive login may have touched the
+    # session (that refreshes, never ages, its access time): still must be served
+    return root
 
 
 # ------------------------------------------------------------------ C01
@@ -596,6 +653,10 @@ def oracle_C01(t):
     lin, frames = track(t)
     for i in range(t.n):
         st, o = t.steps[i], t.obs[i]
+        root = must_be_served(t, lin, frames, i)
+        if root is not None and not (o["res"] == "sess" and lin.find(kt(o["start"]["key"])) == root):
+            out.append(F(i, "a cookie-following client whose session is valid (last accepted request %d ns ago, SessionExpiry %d, same peer and agent) did not get its session back: %s %s"
+                         % (o["now"] - [l for r0, l in frames[i - 1]["last"].items() if lin.find(r0) == root][0]["time"], t.cfgs[i]["expiry"], o["res"], o.get("site", ""))))
         if st["kind"] != "req" or o["res"] != "sess" or not t.plain(i):
             continue
         fr = frames[i]
